@@ -24,22 +24,26 @@ pub struct CliCase {
     pub long: bool,
     pub pre: u8,
     pub n: u8,
+    /// 0 = the source is named directly, 1 = through a symbolic link in another directory and with another
+    /// stem, 2 = through a symbolic link with another stem in the same directory
+    pub link: u8,
 }
 
 pub fn cli_case() -> impl Strategy<Value = CliCase> {
     (
         prop_oneof![20 => 0u8..11, 1 => Just(11u8)],
-        0u8..5,
+        0u8..7,
         any::<bool>(),
         any::<bool>(),
-        prop_oneof![4 => Just(0u8), 3 => Just(1u8), 1 => Just(2u8), 1 => Just(3u8), 1 => Just(4u8)],
-        prop_oneof![4 => Just(0u8), 3 => Just(1u8), 1 => Just(2u8), 1 => Just(3u8), 1 => Just(4u8)],
+        prop_oneof![8 => Just(0u8), 6 => Just(1u8), 2 => Just(2u8), 2 => Just(3u8), 2 => Just(4u8), 3 => Just(5u8)],
+        prop_oneof![8 => Just(0u8), 6 => Just(1u8), 2 => Just(2u8), 2 => Just(3u8), 2 => Just(4u8), 3 => Just(5u8)],
         any::<bool>(),
         any::<bool>(),
         0u8..16,
         any::<u8>(),
+        prop_oneof![5 => Just(0u8), 1 => Just(1u8), 1 => Just(2u8)],
     )
-        .prop_map(|(kind, name, subdir, abs, o, e, v, long, pre, n)| CliCase { kind, name, subdir, abs, o, e, v, long, pre, n })
+        .prop_map(|(kind, name, subdir, abs, o, e, v, long, pre, n, link)| CliCase { kind, name, subdir, abs, o, e, v, long, pre, n, link })
 }
 
 pub const KINDS: &[&str] = &["valid-code-only", "valid-code-and-eeprom", "valid-eeprom-only", "empty-source", "failing-syntax", "failing-semantic", "failing-missing-include", "nonexistent-source", "valid-with-local-include", "valid-above-64k", "valid-with-messages", "valid-around-1MiB"];
@@ -62,7 +66,19 @@ fn source_text(kind: u8, n: u8) -> Option<String> {
     })
 }
 
-const NAMES: &[&str] = &["prog.asm", "my.prog.asm", "noext", "UPPER.ASM", "a-b_c.s"];
+/// file names as bytes: the last two are not ASCII, the very last is not even UTF-8
+const NAMES: &[&[u8]] = &[b"prog.asm", b"my.prog.asm", b"noext", b"UPPER.ASM", b"a-b_c.s", "pr\u{f6}g \u{3b1}.asm".as_bytes(), b"bad\xff\xfename.asm"];
+
+fn os(b: &[u8]) -> std::ffi::OsString {
+    use std::os::unix::ffi::OsStrExt;
+    std::ffi::OsStr::from_bytes(b).to_os_string()
+}
+
+fn with_ext(stem: &std::ffi::OsStr, ext: &str) -> std::ffi::OsString {
+    let mut s = stem.to_os_string();
+    s.push(ext);
+    s
+}
 const SENTINEL: &[u8] = b"SENTINEL CONTENT - must survive a failing build\n";
 
 fn snapshot(dir: &Path) -> BTreeMap<PathBuf, Option<Vec<u8>>> {
@@ -86,8 +102,10 @@ fn snapshot(dir: &Path) -> BTreeMap<PathBuf, Option<Vec<u8>>> {
 }
 
 pub struct Planned {
-    pub args: Vec<String>,
+    pub args: Vec<std::ffi::OsString>,
+    /// the path the tool is given (made absolute): the real file or the symbolic link to it
     pub src_abs: PathBuf,
+    pub symlinks: Vec<(PathBuf, PathBuf)>,
     pub out_hex: PathBuf,
     pub out_eep: PathBuf,
     pub hex_unwritable: bool,
@@ -97,28 +115,47 @@ pub struct Planned {
 }
 
 pub fn plan(c: &CliCase, root: &Path) -> Planned {
-    let name = NAMES[c.name as usize % NAMES.len()];
-    let src_rel = if c.subdir { PathBuf::from("src dir").join(name) } else { PathBuf::from(name) };
-    let src_abs = root.join(&src_rel);
+    let name = os(NAMES[c.name as usize % NAMES.len()]);
+    // a source reached through a link in another directory never lives in the working directory itself:
+    // there a name "as written" would be found by the tool (cwd = case directory) and not by the
+    // harness's own library call, whose working directory is another one
+    let subdir = c.subdir || c.link == 1;
+    let real_rel = if subdir { PathBuf::from("src dir").join(&name) } else { PathBuf::from(&name) };
+    let real_abs = root.join(&real_rel);
     let mut files: Vec<(PathBuf, Vec<u8>)> = vec![];
+    let mut symlinks: Vec<(PathBuf, PathBuf)> = vec![];
     let mut dirs: Vec<PathBuf> = vec![root.join("cfg"), root.join("out"), root.join("isdir.hex"), root.join("isdir.eep.hex")];
-    if c.subdir {
+    if subdir {
         dirs.push(root.join("src dir"));
     }
     if let Some(t) = source_text(c.kind, c.n) {
-        files.push((src_abs.clone(), t.into_bytes()));
+        files.push((real_abs.clone(), t.into_bytes()));
     }
     if c.kind == 8 {
-        files.push((src_abs.parent().unwrap().join("local.inc"), format!(".equ LOCAL_VALUE = {}\n", c.n).into_bytes()));
+        files.push((real_abs.parent().unwrap().join("local.inc"), format!(".equ LOCAL_VALUE = {}\n", c.n).into_bytes()));
     }
-    let stem = Path::new(name).file_stem().unwrap().to_string_lossy().to_string();
-    let default_hex = src_abs.parent().unwrap().join(format!("{}.hex", stem));
-    let default_eep = src_abs.parent().unwrap().join(format!("{}.eep.hex", stem));
+    // the path the tool is given: the file itself or a symbolic link to it
+    let src_rel = match c.link {
+        1 => {
+            dirs.push(root.join("links"));
+            PathBuf::from("links").join("alias.one.asm")
+        }
+        2 => real_rel.parent().unwrap().join("alias2.s"),
+        _ => real_rel.clone(),
+    };
+    let src_abs = root.join(&src_rel);
+    if c.link == 1 || c.link == 2 {
+        symlinks.push((src_abs.clone(), real_abs.clone()));
+    }
+    let stem = src_rel.file_stem().unwrap().to_os_string();
+    let default_hex = src_abs.parent().unwrap().join(with_ext(&stem, ".hex"));
+    let default_eep = src_abs.parent().unwrap().join(with_ext(&stem, ".eep.hex"));
     let (out_hex, hex_unwritable) = match c.o {
         1 => (root.join("out").join("flash image.hex"), false),
         2 => (root.join("missing_parent").join("x.hex"), true),
         3 => (root.join("isdir.hex"), true),
         4 => (PathBuf::from("/dev/full"), true),
+        5 => (root.join("out").join("same file.hex"), false),
         _ => (default_hex.clone(), false),
     };
     let (out_eep, eep_unwritable) = match c.e {
@@ -126,6 +163,7 @@ pub fn plan(c: &CliCase, root: &Path) -> Planned {
         2 => (root.join("missing_parent_e").join("x.eep.hex"), true),
         3 => (root.join("isdir.eep.hex"), true),
         4 => (PathBuf::from("/dev/full"), true),
+        5 => (root.join("out").join("same file.hex"), false),
         _ => (default_eep.clone(), false),
     };
     // pre-existing outputs with sentinel content
@@ -135,27 +173,28 @@ pub fn plan(c: &CliCase, root: &Path) -> Planned {
     if c.pre & 2 != 0 {
         files.push((default_eep.clone(), SENTINEL.to_vec()));
     }
-    if c.pre & 4 != 0 && c.o == 1 {
+    if c.pre & 4 != 0 && (c.o == 1 || c.o == 5) {
         files.push((out_hex.clone(), SENTINEL.to_vec()));
     }
     if c.pre & 8 != 0 && c.e == 1 {
         files.push((out_eep.clone(), SENTINEL.to_vec()));
     }
-    let mut args: Vec<String> = vec![];
+    let mut args: Vec<std::ffi::OsString> = vec![];
     args.push(if c.long { "--source".into() } else { "-s".into() });
-    args.push(if c.abs { src_abs.to_string_lossy().to_string() } else { src_rel.to_string_lossy().to_string() });
+    args.push(if c.abs { src_abs.clone().into_os_string() } else { src_rel.clone().into_os_string() });
     if c.o != 0 {
         args.push(if c.long { "--output".into() } else { "-o".into() });
-        args.push(out_hex.to_string_lossy().to_string());
+        // the second spelling of the shared path is not textually equal to the first
+        args.push(if c.o == 5 && !c.abs { PathBuf::from("out").join("same file.hex").into_os_string() } else { out_hex.clone().into_os_string() });
     }
     if c.e != 0 {
         args.push(if c.long { "--eeprom".into() } else { "-e".into() });
-        args.push(out_eep.to_string_lossy().to_string());
+        args.push(out_eep.clone().into_os_string());
     }
     if c.v {
         args.push(if c.long { "--verbosity".into() } else { "-v".into() });
     }
-    Planned { args, src_abs, out_hex, out_eep, hex_unwritable, eep_unwritable, files, dirs }
+    Planned { args, src_abs, symlinks, out_hex, out_eep, hex_unwritable, eep_unwritable, files, dirs }
 }
 
 pub fn cli_path() -> Result<PathBuf, String> {
@@ -179,6 +218,9 @@ pub fn run_case(c: &CliCase, root: &Path, cli: &Path) -> Result<Result<(&'static
             std::fs::create_dir_all(parent).map_err(|e| e.to_string())?;
         }
         std::fs::write(f, content).map_err(|e| e.to_string())?;
+    }
+    for (link, target) in &p.symlinks {
+        std::os::unix::fs::symlink(target, link).map_err(|e| e.to_string())?;
     }
     // the library's verdict for the same file and include set
     let std_inc = root.join("cfg").join("avra-rs").join("includes");
@@ -204,10 +246,12 @@ pub fn run_case(c: &CliCase, root: &Path, cli: &Path) -> Result<Result<(&'static
             Outcome::Ok(b) => {
                 let need_hex = !b.code.is_empty();
                 let need_eep = !b.eeprom.is_empty();
-                let unwritable = (need_hex && p.hex_unwritable) || (need_eep && p.eep_unwritable);
+                // one path for both images: they cannot both be there, so this counts as "cannot be written"
+                let clash = need_hex && need_eep && p.out_hex == p.out_eep;
+                let unwritable = (need_hex && p.hex_unwritable) || (need_eep && p.eep_unwritable) || clash;
                 if unwritable {
                     if code == Some(0) {
-                        return Err(("unwritable-output:exit-0".into(), format!("an output file cannot be written but the exit status is 0 {}", ctx)));
+                        return Err((if clash { "same-output-path:exit-0".into() } else { "unwritable-output:exit-0".into() }, format!("an output file cannot be written but the exit status is 0 {}", ctx)));
                     }
                     if diag.trim().is_empty() {
                         return Err(("unwritable-output:silent".into(), format!("an output file cannot be written and nothing is reported {}", ctx)));
@@ -242,8 +286,12 @@ pub fn run_case(c: &CliCase, root: &Path, cli: &Path) -> Result<Result<(&'static
                         }
                     }
                 };
-                check(&p.out_hex, &b.code, "flash")?;
-                check(&p.out_eep, &b.eeprom, "eeprom")?;
+                if p.out_hex != p.out_eep || need_hex {
+                    check(&p.out_hex, &b.code, "flash")?;
+                }
+                if p.out_hex != p.out_eep || need_eep {
+                    check(&p.out_eep, &b.eeprom, "eeprom")?;
+                }
                 // nothing else may change: only the two output paths may differ from the snapshot
                 for (k, v) in &after {
                     let full = root.join(k);
@@ -277,8 +325,8 @@ pub fn run_case(c: &CliCase, root: &Path, cli: &Path) -> Result<Result<(&'static
 }
 
 fn case_json(c: &CliCase) -> Value {
-    json!({"kind": "cli", "k": c.kind, "name": c.name, "subdir": c.subdir, "abs": c.abs, "o": c.o, "e": c.e, "v": c.v, "long": c.long, "pre": c.pre, "n": c.n,
-           "args_relative_to_case_dir": plan(c, Path::new("<case>")).args, "source": source_text(c.kind, c.n)})
+    json!({"kind": "cli", "k": c.kind, "name": c.name, "subdir": c.subdir, "abs": c.abs, "o": c.o, "e": c.e, "v": c.v, "long": c.long, "pre": c.pre, "n": c.n, "link": c.link,
+           "args_relative_to_case_dir": plan(c, Path::new("<case>")).args.iter().map(|a| a.to_string_lossy().to_string()).collect::<Vec<_>>(), "source": source_text(c.kind, c.n)})
 }
 
 pub fn replay(v: &Value) -> Option<Result<(), String>> {
@@ -287,7 +335,7 @@ pub fn replay(v: &Value) -> Option<Result<(), String>> {
     }
     let g = |k: &str| v.get(k).and_then(|x| x.as_u64()).unwrap_or(0) as u8;
     let b = |k: &str| v.get(k).and_then(|x| x.as_bool()).unwrap_or(false);
-    let c = CliCase { kind: g("k"), name: g("name"), subdir: b("subdir"), abs: b("abs"), o: g("o"), e: g("e"), v: b("v"), long: b("long"), pre: g("pre"), n: g("n") };
+    let c = CliCase { kind: g("k"), name: g("name"), subdir: b("subdir"), abs: b("abs"), o: g("o"), e: g("e"), v: b("v"), long: b("long"), pre: g("pre"), n: g("n"), link: g("link") };
     let cli = match cli_path() {
         Ok(p) => p,
         Err(e) => return Some(Err(e)),
@@ -317,7 +365,7 @@ pub fn run(ctx: &Ctx) -> Result<Ev, String> {
                         ev.nt(fp(&format!("{:?}", c)));
                     }
                     if ev.samples.len() < 2 {
-                        ev.samples.push(json!({"source_kind": KINDS[c.kind as usize % KINDS.len()], "args": plan(c, Path::new("<case>")).args, "outcome": class}));
+                        ev.samples.push(json!({"source_kind": KINDS[c.kind as usize % KINDS.len()], "args": plan(c, Path::new("<case>")).args.iter().map(|a| a.to_string_lossy().to_string()).collect::<Vec<_>>(), "outcome": class}));
                     }
                     Ok(())
                 }
@@ -344,5 +392,5 @@ pub fn run(ctx: &Ctx) -> Result<Ev, String> {
 }
 
 pub fn rule() -> String {
-    "proptest: source in {valid code only, code + EEPROM, EEPROM only, empty, syntax error, semantic error, missing include, nonexistent file, valid with a local include, valid above 64 KiB, valid with messages} × file name (several stems, dots, no extension) in the case directory or a sub-directory with a space × relative or absolute source path × -o / -e each in {absent, writable custom path, missing parent directory, existing directory} × -v × short/long option spelling × pre-existing output files with sentinel content; the binary built from the tree runs in a fresh directory with HOME/XDG_CONFIG_HOME inside it. Oracle: build_file in the harness for the same file and include set; success ⇒ exit 0, outputs decode (independent Intel HEX reader) to exactly the library's images, nothing else changes; failing build ⇒ non-zero exit, a diagnostic, directory tree byte-for-byte unchanged; unwritable output ⇒ non-zero exit and a diagnostic. Non-trivial = failing build, unwritable target, EEPROM output or explicit output paths; distinct = distinct case parameters".into()
+    "proptest: source in {valid code only, code + EEPROM, EEPROM only, empty, syntax error, semantic error, missing include, nonexistent file, valid with a local include, valid above 64 KiB, valid with messages} × file name (several stems, dots, no extension, non-ASCII and non-UTF-8 names) in the case directory or reached through a symbolic link with another stem in the same or another directory or a sub-directory with a space × relative or absolute source path × -o / -e each in {absent, writable custom path, missing parent directory, existing directory, /dev/full, one shared path for both images} × -v × short/long option spelling × pre-existing output files with sentinel content; the binary built from the tree runs in a fresh directory with HOME/XDG_CONFIG_HOME inside it. Oracle: build_file in the harness for the same file and include set; success ⇒ exit 0, outputs decode (independent Intel HEX reader) to exactly the library's images, nothing else changes; failing build ⇒ non-zero exit, a diagnostic, directory tree byte-for-byte unchanged; unwritable output ⇒ non-zero exit and a diagnostic. Non-trivial = failing build, unwritable target, EEPROM output or explicit output paths; distinct = distinct case parameters".into()
 }
